@@ -637,6 +637,10 @@ impl Disk {
         let (typ,fat_buf) = self.get_fat_buffer()?;
         fat::set_cluster(last.unwrap() , new_cluster as u32, typ, fat_buf);
         fat::mark_last(new_cluster, typ, fat_buf);
+        // the new cluster is part of the directory from now on, whatever happens to the operation that
+        // needed the room: it must not show whatever the cluster held before
+        let zeros = vec![0;self.boot_sector.block_size() as usize];
+        self.zap_block(&zeros,new_cluster,0)?;
         Ok(())
     }
     /// Write a changed entry back to disk using the directory buffer.
